@@ -22,7 +22,7 @@ from .c05 import zid_insertion_problem
 ID = "C11"
 LEVEL = "exploration"
 RUNS = {"quick": 220, "thorough": 8000}
-WALL_CAP = {"quick": 280, "thorough": 3000}
+WALL_CAP = {"quick": 280, "thorough": 1500}
 RULE = (
     "case = seeded world + db create on day D0 + 3-8 rounds of (optional day change; user edits biased "
     "to bodies, bullets, kinds, priorities, stamp removal / hand-editing, header-only edits, new notes "
